@@ -1,4 +1,4 @@
 From Coq Require Import Extraction ExtrOcamlBasic ZArith List.
-From LP Require Import Num C04_Model C05_Model.
+From LP Require Import Num C04_Model C05_Model C05_Model2.
 Extraction Language OCaml.
-Extraction "C05_m.ml" mat_of_entries determinant invertible inverse orthogonal srun mrun hrun hmrun m_product transpose wf_mat square Z.of_nat Z.to_nat.
+Extraction "C05_m.ml" mat_of_entries determinant invertible inverse inverse_lbl orthogonal srun mrun hrun hmrun m_product transpose wf_mat square Z.of_nat Z.to_nat.
